@@ -12,6 +12,9 @@ use iceoryx2::port::server::Server;
 use iceoryx2::port::update_connections::UpdateConnections;
 use iceoryx2::prelude::*;
 use iceoryx2::response::Response;
+use iceoryx2::request_mut_uninit::RequestMutUninit;
+use iceoryx2::response_mut_uninit::ResponseMutUninit;
+use std::mem::MaybeUninit;
 use std::collections::{HashMap, HashSet};
 
 static SERVICE_COUNTER: std::sync::atomic::AtomicUsize = std::sync::atomic::AtomicUsize::new(0);
@@ -21,6 +24,8 @@ type Sv<S> = Server<S, u64, (), u64, ()>;
 type Pend<S> = PendingResponse<S, u64, (), u64, ()>;
 type Act<S> = ActiveRequest<S, u64, (), u64, ()>;
 type Resp<S> = Response<S, u64, ()>;
+type QLoan<S> = RequestMutUninit<S, MaybeUninit<u64>, (), u64, ()>;
+type RLoan<S> = ResponseMutUninit<S, MaybeUninit<u64>, ()>;
 
 struct HeldResp<S: Service> {
     resp: Resp<S>,
@@ -51,6 +56,10 @@ struct World<S: Service> {
     actives: HashMap<(usize, usize), (Act<S>, u64)>,
     active_labels: HashSet<(usize, usize)>,
     held: HashMap<usize, Vec<HeldResp<S>>>,
+    qloans: HashMap<(usize, usize), QLoan<S>>,
+    qloan_labels: HashSet<(usize, usize)>,
+    rloans: HashMap<(usize, usize), (RLoan<S>, usize)>,
+    rloan_labels: HashSet<(usize, usize)>,
     max_active: usize,
     max_borrow: usize,
     // the harness's own book (oracle)
@@ -121,6 +130,10 @@ fn mk<S: Service>(t: &[&str]) -> Result<World<S>, String> {
         actives: HashMap::new(),
         active_labels: Default::default(),
         held: HashMap::new(),
+        qloans: HashMap::new(),
+        qloan_labels: Default::default(),
+        rloans: HashMap::new(),
+        rloan_labels: Default::default(),
         max_active: n(t[4]).max(1),
         max_borrow: n(t[6]).max(1),
         req_tags: HashMap::new(),
@@ -194,6 +207,67 @@ fn exec<S: Service>(w: &mut World<S>, t: &[&str]) -> String {
                 },
             }
         }
+        "qloan" => {
+            // qloan <c> <l>: loan a request, keep it under label l
+            let (c, l) = (n(t[1]), n(t[2]));
+            match w.clients.get(&c) {
+                None => "none".into(),
+                Some(_) if w.qloan_labels.contains(&(c, l)) => "dup".into(),
+                Some(cl) => match cl.loan_uninit() {
+                    Err(e) => format!("err:loan:{e:?}"),
+                    Ok(req) => { w.qloan_labels.insert((c, l)); w.qloans.insert((c, l), req); "ok".into() }
+                },
+            }
+        }
+        "qsend" => {
+            // qsend <c> <l> <r> <tag>: write + send the kept loan; the pending response is kept under (c, r)
+            let (c, l, r, tag) = (n(t[1]), n(t[2]), n(t[3]), t[4].parse::<u64>().unwrap());
+            if !w.qloans.contains_key(&(c, l)) { "none".into() }
+            else if w.pending_labels.contains(&(c, r)) { "dup".into() }
+            else {
+                let req = w.qloans.remove(&(c, l)).unwrap();
+                match req.write_payload(tag).send() {
+                    Err(e) => format!("err:send:{e:?}"),
+                    Ok(p) => {
+                        let k = p.number_of_server_connections();
+                        w.req_tags.insert(tag, (c, r));
+                        w.pending_labels.insert((c, r));
+                        w.pendings.insert((c, r), (p, tag));
+                        format!("ok:{k}")
+                    }
+                }
+            }
+        }
+        "qdrop" => match w.qloans.remove(&(n(t[1]), n(t[2]))) { Some(x) => { drop(x); "ok".into() } None => "none".into() },
+        "rloan" => {
+            // rloan <s> <a> <l>: loan a response on active request a, keep it under label l
+            let (s, a, l) = (n(t[1]), n(t[2]), n(t[3]));
+            match w.actives.get(&(s, a)) {
+                None => "none".into(),
+                Some(_) if w.rloan_labels.contains(&(s, l)) => "dup".into(),
+                Some((act, _)) => match act.loan_uninit() {
+                    Err(e) => format!("err:loan:{e:?}"),
+                    Ok(resp) => { w.rloan_labels.insert((s, l)); w.rloans.insert((s, l), (resp, a)); "ok".into() }
+                },
+            }
+        }
+        "rsend" => {
+            // rsend <s> <l> <tag>: write + send the kept loan (its active request may be gone by now)
+            let (s, l, tag) = (n(t[1]), n(t[2]), t[3].parse::<u64>().unwrap());
+            match w.rloans.remove(&(s, l)) {
+                None => "none".into(),
+                Some((resp, a)) => {
+                    let (origin, seq) = w.active_origin.get(&(s, a)).cloned().unwrap();
+                    w.active_origin.insert((s, a), (origin, seq + 1));
+                    w.resp_tags.insert(tag, RespInfo { server: s, origin, seq });
+                    match resp.write_payload(tag).send() {
+                        Err(e) => format!("err:send:{e:?}"),
+                        Ok(()) => "ok".into(),
+                    }
+                }
+            }
+        }
+        "rdrop" => match w.rloans.remove(&(n(t[1]), n(t[2]))) { Some(x) => { drop(x); "ok".into() } None => "none".into() },
         "recvreq" => {
             // recvreq <s> <a>
             let (s, a) = (n(t[1]), n(t[2]));
@@ -359,15 +433,15 @@ impl Comp for ReqResComp {
 /// what the generator believes about the history so far (a rough guess, only used to pick
 /// operations that probably do something; the outcome of every call is decided by the
 /// implementation and compared with the model)
-struct GClient { label: usize, alive: bool, max_active: u64, pendings: Vec<usize>, held: usize }
-struct GServer { label: usize, alive: bool, actives: Vec<(usize, usize, usize)>, queue: Vec<(usize, usize)> }
+struct GClient { label: usize, alive: bool, max_active: u64, pendings: Vec<usize>, held: usize, qloans: Vec<usize> }
+struct GServer { label: usize, alive: bool, actives: Vec<(usize, usize, usize)>, queue: Vec<(usize, usize)>, rloans: Vec<(usize, usize)>, ml: u64 }
 struct GenState {
     clients: Vec<GClient>,
     servers: Vec<GServer>,
     all_pendings: Vec<(usize, usize)>,     // every label ever used, also dropped ones
     all_actives: Vec<(usize, usize)>,
     queued_resp: HashMap<(usize, usize), usize>,
-    nc: usize, ns: usize, nr: usize, na: usize, tag: u64,
+    nc: usize, ns: usize, nr: usize, na: usize, nl: usize, tag: u64,
 }
 impl GenState {
     fn registered_clients(&self) -> usize { self.clients.iter().filter(|c| c.alive || !c.pendings.is_empty() || c.held > 0).count() }
@@ -380,6 +454,13 @@ pub fn generate(a: &Args) -> Vec<Vec<String>> {
     let variant = a.rest.iter().find(|x| *x == "ipc").map(|_| "ipc").unwrap_or("local");
     let sat = a.rest.iter().any(|x| x == "sat");
     let churn = a.rest.iter().any(|x| x == "churn");
+    let loans_mode = a.rest.iter().any(|x| x == "loans");
+    if a.rest.iter().any(|x| x == "wrap") {
+        return wrap_cases(a, variant);
+    }
+    if a.rest.iter().any(|x| x == "preloan") {
+        return preloan_cases(a, variant);
+    }
     fn lo(rng: &mut Rng) -> u64 { if rng.chance(8) { 0 } else { 1 } }
     if a.exhaustive > 0 {
         return exhaustive(a, variant);
@@ -389,18 +470,21 @@ pub fn generate(a: &Args) -> Vec<Vec<String>> {
         let l1 = lo(&mut rng); let l2 = lo(&mut rng);
         let mchi = 2 + rng.below(2); let (mc, ms) = (rng.range(l1, mchi), rng.range(l2, 2));
         let l3 = lo(&mut rng); let act = rng.range(l3, hi);
-        let l4 = lo(&mut rng); let buf = rng.range(l4, hi);
-        let l5 = lo(&mut rng); let bor = rng.range(l5, hi);
+        let l4 = lo(&mut rng); let buf = if loans_mode { 1 + rng.below(3) / 2 } else { rng.range(l4, hi) };
+        let l5 = lo(&mut rng); let bor = if loans_mode { 1 + rng.below(3) / 2 } else { rng.range(l5, hi) };
         let (ovq, ovr, ff) = (rng.below(2), rng.below(2), rng.below(2));
-        let loans = rng.range(0, 2);
+        let loans = if loans_mode { rng.range(3, 5) } else { rng.range(0, 3) };
+        let act = if loans_mode && act > 2 { 1 } else { act };
         let (ecb, scb) = (rng.range(1, 3), rng.range(1, 3));
         let (mcl, msl, actl) = (mc.max(1) as usize, ms.max(1) as usize, act.max(1));
         let mut lines = vec![format!("new {variant} {mc} {ms} {act} {buf} {bor} {ovq} {ovr} {ff} {loans} {ecb} {scb}")];
-        let mut g = GenState { clients: vec![], servers: vec![], all_pendings: vec![], all_actives: vec![], queued_resp: HashMap::new(), nc: 0, ns: 0, nr: 0, na: 0, tag: 0 };
+        let mut g = GenState { clients: vec![], servers: vec![], all_pendings: vec![], all_actives: vec![], queued_resp: HashMap::new(), nc: 0, ns: 0, nr: 0, na: 0, nl: 0, tag: 0 };
         // weights: cclient cserver dclient dserver send recvreq respond dactive recvresp dpending dresp connected aconnected has hasreq hint ahint upd stray cycle
-        let wts: [u64; 20] = if sat { [3, 3, 1, 1, 20, 14, 30, 3, 24, 3, 8, 2, 2, 2, 1, 1, 1, 2, 2, 4] }
-            else if churn { [8, 6, 8, 4, 15, 12, 13, 5, 12, 7, 5, 3, 4, 2, 1, 2, 2, 2, 2, 6] }
-            else { [6, 6, 3, 3, 16, 13, 16, 5, 15, 6, 6, 3, 3, 2, 1, 2, 2, 2, 3, 1] };
+        //          qloan qsend qdrop rloan rsend rdrop  preloaned-responses preloaned-requests
+        let wts: [u64; 28] = if loans_mode { [4, 4, 1, 1, 8, 12, 6, 3, 16, 4, 10, 2, 2, 1, 1, 1, 1, 2, 2, 0, 8, 10, 2, 12, 14, 2, 5, 4] }
+            else if sat { [3, 3, 1, 1, 20, 14, 30, 3, 24, 3, 8, 2, 2, 2, 1, 1, 1, 2, 2, 4, 2, 3, 1, 3, 4, 1, 1, 1] }
+            else if churn { [8, 6, 8, 4, 15, 12, 13, 5, 12, 7, 5, 3, 4, 2, 1, 2, 2, 2, 2, 6, 2, 2, 1, 3, 3, 1, 1, 1] }
+            else { [6, 6, 3, 3, 16, 13, 16, 5, 15, 6, 6, 3, 3, 2, 1, 2, 2, 2, 3, 1, 3, 4, 1, 4, 5, 1, 1, 1] };
         let total: u64 = wts.iter().sum();
         let target = rng.range(3, a.len) as usize;
         while lines.len() < target {
@@ -418,15 +502,15 @@ pub fn generate(a: &Args) -> Vec<Vec<String>> {
                     let ok = g.registered_clients() < mcl;
                     let c = g.nc; g.nc += 1;
                     let (m, ma) = if rng.chance(75) { ("-".to_string(), actl) } else { let m = rng.range(0, act + 1); (m.to_string(), m.max(1)) };
-                    if ok && ma <= actl { g.clients.push(GClient { label: c, alive: true, max_active: ma, pendings: vec![], held: 0 }); }
+                    if ok && ma <= actl { g.clients.push(GClient { label: c, alive: true, max_active: ma, pendings: vec![], held: 0, qloans: vec![] }); }
                     lines.push(format!("cclient {c} {m}"));
                 }
                 1 => {
                     if g.registered_servers() >= msl && !rng.chance(4) { continue }
                     let ok = g.registered_servers() < msl;
                     let s = g.ns; g.ns += 1;
-                    if ok { g.servers.push(GServer { label: s, alive: true, actives: vec![], queue: vec![] }); }
-                    let m = if rng.chance(60) { "-".to_string() } else { rng.range(0, 2).to_string() };
+                    let m = if loans_mode { rng.range(3, 5).to_string() } else if rng.chance(60) { "-".to_string() } else { rng.range(0, 4).to_string() };
+                    if ok { g.servers.push(GServer { label: s, alive: true, actives: vec![], queue: vec![], rloans: vec![], ml: m.parse::<u64>().unwrap_or(2).max(1) }); }
                     lines.push(format!("cserver {s} {m}"));
                 }
                 2 if !live_c.is_empty() => {
@@ -565,10 +649,262 @@ pub fn generate(a: &Args) -> Vec<Vec<String>> {
                         if rng.chance(40) { g.tag += 1; lines.push(format!("respond {s} {a} {}", g.tag)); }
                     }
                     if rng.chance(85) { lines.push(format!("dpending {c} {r}")); lines.push(format!("dclient {c}")); }
-                    else { g.clients.push(GClient { label: c, alive: true, max_active: actl, pendings: vec![r], held: 0 }); }
+                    else { g.clients.push(GClient { label: c, alive: true, max_active: actl, pendings: vec![r], held: 0, qloans: vec![] }); }
+                }
+                20 if !live_c.is_empty() => {
+                    let i = *rng.pick(&live_c);
+                    let l = g.nl; g.nl += 1;
+                    if (g.clients[i].qloans.len() as u64) < loans.max(1) { g.clients[i].qloans.push(l); }
+                    lines.push(format!("qloan {} {l}", g.clients[i].label));
+                }
+                21 => {
+                    let cand: Vec<usize> = (0..g.clients.len()).filter(|i| !g.clients[*i].qloans.is_empty()).collect();
+                    if cand.is_empty() { continue }
+                    let i = *rng.pick(&cand);
+                    let j = rng.below(g.clients[i].qloans.len() as u64) as usize;     // not necessarily in loan order
+                    let l = g.clients[i].qloans.remove(j);
+                    let c = g.clients[i].label;
+                    let r = g.nr; g.nr += 1; g.tag += 1;
+                    if (g.clients[i].pendings.len() as u64) < g.clients[i].max_active {
+                        g.clients[i].pendings.push(r); g.all_pendings.push((c, r));
+                        for s in g.servers.iter_mut() { if s.alive || !s.actives.is_empty() { s.queue.push((c, r)); if s.queue.len() as u64 > actl { if ovq == 1 { s.queue.remove(0); } else { s.queue.pop(); } } } }
+                    }
+                    lines.push(format!("qsend {c} {l} {r} {}", g.tag));
+                }
+                22 => {
+                    let cand: Vec<usize> = (0..g.clients.len()).filter(|i| !g.clients[*i].qloans.is_empty()).collect();
+                    if cand.is_empty() { continue }
+                    let i = *rng.pick(&cand);
+                    let j = rng.below(g.clients[i].qloans.len() as u64) as usize;
+                    let l = g.clients[i].qloans.remove(j);
+                    lines.push(format!("qdrop {} {l}", g.clients[i].label));
+                }
+                23 => {
+                    let cand: Vec<(usize, usize)> = (0..g.servers.len()).flat_map(|i| (0..g.servers[i].actives.len()).map(move |j| (i, j))).collect();
+                    if cand.is_empty() { continue }
+                    let (i, j) = *rng.pick(&cand);
+                    let (a, _, _) = g.servers[i].actives[j];
+                    let l = g.nl; g.nl += 1;
+                    g.servers[i].rloans.push((l, a));
+                    lines.push(format!("rloan {} {a} {l}", g.servers[i].label));
+                }
+                24 => {
+                    let cand: Vec<usize> = (0..g.servers.len()).filter(|i| !g.servers[*i].rloans.is_empty()).collect();
+                    if cand.is_empty() { continue }
+                    let i = *rng.pick(&cand);
+                    let j = rng.below(g.servers[i].rloans.len() as u64) as usize;
+                    let (l, a) = g.servers[i].rloans.remove(j);
+                    g.tag += 1;
+                    // the active request may have been dropped meanwhile: the response still goes out
+                    if let Some((_, c, r)) = g.servers[i].actives.iter().find(|x| x.0 == a) { *g.queued_resp.entry((*c, *r)).or_default() += 1; }
+                    lines.push(format!("rsend {} {l} {}", g.servers[i].label, g.tag));
+                }
+                25 => {
+                    let cand: Vec<usize> = (0..g.servers.len()).filter(|i| !g.servers[*i].rloans.is_empty()).collect();
+                    if cand.is_empty() { continue }
+                    let i = *rng.pick(&cand);
+                    let j = rng.below(g.servers[i].rloans.len() as u64) as usize;
+                    let (l, _) = g.servers[i].rloans.remove(j);
+                    lines.push(format!("rdrop {} {l}", g.servers[i].label));
+                }
+                26 => {
+                    // responses loaned up front, then sent one by one while the client receives and releases each
+                    if live_c.is_empty() || live_s.is_empty() { continue }
+                    let (ci, si) = (*rng.pick(&live_c), *rng.pick(&live_s));
+                    if !g.clients[ci].pendings.is_empty() || !g.servers[si].queue.is_empty() || g.clients[ci].held > 0 { continue }
+                    let (c, s) = (g.clients[ci].label, g.servers[si].label);
+                    let r = g.nr; g.nr += 1; g.tag += 1;
+                    let a = g.na; g.na += 1;
+                    lines.push(format!("send {c} {r} {}", g.tag));
+                    lines.push(format!("recvreq {s} {a}"));
+                    g.all_pendings.push((c, r)); g.all_actives.push((s, a));
+                    // one more than the completion queue of the connection holds (buffer + max borrowed + 1), if the loan limit allows
+                    let k = if rng.chance(70) { (buf.max(1) + bor.max(1) + 2).min(g.servers[si].ml).max(2) } else { rng.range(2, 5) } as usize;
+                    let ls: Vec<usize> = (0..k).map(|_| { let l = g.nl; g.nl += 1; lines.push(format!("rloan {s} {a} {l}")); l }).collect();
+                    for l in ls {
+                        g.tag += 1;
+                        lines.push(format!("rsend {s} {l} {}", g.tag));
+                        lines.push(format!("recvresp {c} {r}"));
+                        if rng.chance(85) { lines.push(format!("dresp {c} 0")); }
+                    }
+                    lines.push(format!("recvresp {c} {r}"));
+                    if rng.chance(60) { lines.push(format!("dpending {c} {r}")); lines.push(format!("dactive {s} {a}")); lines.push(format!("dresp {c} 0")); lines.push(format!("dresp {c} 0")); }
+                    else { g.clients[ci].pendings.push(r); g.servers[si].actives.push((a, c, r)); g.clients[ci].held += 2; }
+                    for (i, sv) in g.servers.iter_mut().enumerate() { if i != si { sv.queue.clear(); } }
+                }
+                27 => {
+                    // requests loaned up front, then sent one by one while the server receives and releases each
+                    if live_c.is_empty() || live_s.is_empty() { continue }
+                    let (ci, si) = (*rng.pick(&live_c), *rng.pick(&live_s));
+                    if !g.clients[ci].pendings.is_empty() || !g.servers[si].queue.is_empty() || !g.servers[si].actives.is_empty() { continue }
+                    let (c, s) = (g.clients[ci].label, g.servers[si].label);
+                    let k = if rng.chance(70) { (2 * actl + 2).min(loans.max(1)).max(2) } else { rng.range(2, 5) } as usize;
+                    let ls: Vec<usize> = (0..k).map(|_| { let l = g.nl; g.nl += 1; lines.push(format!("qloan {c} {l}")); l }).collect();
+                    for l in ls {
+                        let r = g.nr; g.nr += 1; g.tag += 1;
+                        let a = g.na; g.na += 1;
+                        lines.push(format!("qsend {c} {l} {r} {}", g.tag));
+                        lines.push(format!("recvreq {s} {a}"));
+                        lines.push(format!("dactive {s} {a}"));
+                        lines.push(format!("dpending {c} {r}"));
+                        g.all_pendings.push((c, r)); g.all_actives.push((s, a));
+                    }
+                    let a = g.na; g.na += 1;
+                    lines.push(format!("recvreq {s} {a}"));
+                    for (i, sv) in g.servers.iter_mut().enumerate() { if i != si { sv.queue.clear(); } }
                 }
                 _ => continue,
             };
+        }
+        cases.push(lines);
+    }
+    cases
+}
+
+/// channel-id wrap-around: a server keeps the active request of an early request while the client cycles
+/// through all its channel ids, so that a new request reuses the channel of the old one; then the calls that
+/// look at the channel state from both sides, before and after the old active request answers / goes
+fn wrap_cases(a: &Args, variant: &str) -> Vec<Vec<String>> {
+    let mut rng = Rng::new(a.seed);
+    let mut cases = vec![];
+    for k in 0..a.cases {
+        // small channel counts: channels of a client = max_servers * 2 * max_active + max_loaned_requests
+        let ms = 1 + (k % 2);
+        let act = 1 + ((k / 2) % 2);
+        let loans = 1 + ((k / 4) % 2);
+        let cmax = if act == 2 && rng.chance(40) { 1 } else { act };           // the client may ask for fewer active requests
+        let channels = ms * 2 * cmax + loans;
+        let (buf, bor) = (rng.range(1, 2), rng.range(1, 2));
+        let (ovq, ovr, ff) = (rng.below(2), rng.below(2), rng.below(2));
+        let mut lines = vec![format!("new {variant} {} {ms} {act} {buf} {bor} {ovq} {ovr} {ff} {loans} 2 2", 1 + rng.below(2))];
+        lines.push("cserver 0 -".into());
+        if ms == 2 && rng.chance(50) { lines.push("cserver 1 -".into()); }
+        lines.push(format!("cclient 0 {}", if cmax == act { "-".to_string() } else { cmax.to_string() }));
+        let mut tag = 1u64;
+        lines.push(format!("send 0 0 {tag}"));
+        lines.push("recvreq 0 0".into());
+        let early = rng.below(3);      // the old active request answers early: 0 never, 1 before its pending response goes, 2 after
+        if early == 1 { tag += 1; lines.push(format!("respond 0 0 {tag}")); }
+        lines.push("dpending 0 0".into());
+        if early == 2 { tag += 1; lines.push(format!("respond 0 0 {tag}")); }
+        let mut na = 1usize;
+        // cycle through the other channel ids (a little less / more than a full round now and then)
+        let rounds = match rng.below(10) { 0 => channels.saturating_sub(2), 1 => channels, _ => channels - 1 };
+        for r in 1..=rounds {
+            tag += 1;
+            lines.push(format!("send 0 {r} {tag}"));
+            if rng.chance(30) { lines.push(format!("recvreq 0 {na}")); if rng.chance(70) { lines.push(format!("dactive 0 {na}")); } na += 1; }
+            lines.push(format!("dpending 0 {r}"));
+        }
+        let rn = rounds + 1;
+        tag += 1;
+        lines.push(format!("send 0 {rn} {tag}"));
+        // now the focused tail
+        let mut a0_alive = true;
+        let mut held = 0usize;
+        for _ in 0..rng.range(4, 12) {
+            let l = match rng.below(12) {
+                0 | 1 => format!("connected 0 {rn}"),
+                2 => "aconnected 0 0".to_string(),
+                3 | 4 => { tag += 1; format!("respond 0 0 {tag}") }
+                5 | 6 => { held += 1; format!("recvresp 0 {rn}") }
+                7 if a0_alive => { a0_alive = false; "dactive 0 0".to_string() }
+                8 => format!("has 0 {rn}"),
+                9 => { let x = format!("recvreq 0 {na}"); na += 1; x }
+                10 if na > 1 => { tag += 1; format!("respond 0 {} {tag}", na - 1) }
+                11 if held > 0 => { held -= 1; "dresp 0 0".to_string() }
+                _ => format!("connected 0 {rn}"),
+            };
+            lines.push(l);
+        }
+        if a0_alive { lines.push("dactive 0 0".into()); }
+        lines.push(format!("connected 0 {rn}"));
+        lines.push(format!("recvresp 0 {rn}"));
+        cases.push(lines);
+    }
+    cases
+}
+
+/// samples loaned up front and sent later: one side loans k samples (k around the capacity of the connection's
+/// completion queue, buffer + max borrowed + 1, and beyond), then sends them one at a time while the other side
+/// receives and releases each -- nothing but the delivery itself gives the sender a chance to take back what
+/// was returned
+fn preloan_cases(a: &Args, variant: &str) -> Vec<Vec<String>> {
+    let mut rng = Rng::new(a.seed);
+    let mut cases = vec![];
+    for n in 0..a.cases {
+        let resp_side = n % 3 != 2;
+        let (ovq, ovr, ff) = (rng.below(2), rng.below(2), rng.below(2));
+        let mut lines;
+        let mut tag = 0u64;
+        if resp_side {
+            let buf = 1 + (n / 3) % 2; let bor = 1 + (n / 6) % 2;
+            let act = rng.range(1, 2);
+            let cap = buf + bor + 1;
+            let k = match rng.below(6) { 0 => cap - 1, 1 => cap, 2 => cap + 2, _ => cap + 1 };
+            let ml = if rng.chance(15) { k - 1 } else { k + rng.below(2) };
+            lines = vec![format!("new {variant} {} 1 {act} {buf} {bor} {ovq} {ovr} {ff} {} 2 2", 1 + rng.below(2), rng.range(1, 2))];
+            lines.push(format!("cserver 0 {ml}"));
+            lines.push("cclient 0 -".into());
+            if rng.chance(30) { lines.push("cclient 1 -".into()); }
+            tag += 1; lines.push(format!("send 0 0 {tag}"));
+            lines.push("recvreq 0 0".into());
+            if rng.chance(30) { tag += 1; lines.push(format!("respond 0 0 {tag}")); lines.push("recvresp 0 0".into()); lines.push("dresp 0 0".into()); }
+            for l in 0..k { lines.push(format!("rloan 0 0 {l}")); }
+            let gone_early = rng.chance(15);
+            if gone_early { lines.push("dactive 0 0".into()); }
+            let mut held = 0;
+            for l in 0..k {
+                tag += 1;
+                if rng.chance(8) { lines.push(format!("rdrop 0 {l}")); continue }
+                lines.push(format!("rsend 0 {l} {tag}"));
+                if rng.chance(10) { lines.push("has 0 0".into()); }
+                lines.push("recvresp 0 0".into()); held += 1;
+                if rng.chance(90) { lines.push("dresp 0 0".into()); held -= 1; }
+            }
+            lines.push("recvresp 0 0".into());
+            // afterwards the connection must still work as before
+            for _ in 0..held { lines.push("dresp 0 0".into()); }
+            if !gone_early {
+                for _ in 0..rng.range(1, 3) { tag += 1; lines.push(format!("respond 0 0 {tag}")); lines.push("recvresp 0 0".into()); lines.push("dresp 0 0".into()); }
+                lines.push("dactive 0 0".into());
+            }
+            lines.push("connected 0 0".into());
+            lines.push("dpending 0 0".into());
+            tag += 1; lines.push(format!("send 0 1 {tag}"));
+            lines.push("recvreq 0 1".into());
+            tag += 1; lines.push(format!("respond 0 1 {tag}"));
+            lines.push("recvresp 0 1".into());
+        } else {
+            let act = 1 + (n / 3) % 2;
+            let cap = 2 * act + 1;
+            let k = match rng.below(6) { 0 => cap - 1, 1 => cap, 2 => cap + 2, _ => cap + 1 };
+            let loans = if rng.chance(15) { k - 1 } else { k + rng.below(2) };
+            lines = vec![format!("new {variant} {} {} {act} {} {} {ovq} {ovr} {ff} {loans} 2 2", 1 + rng.below(2), rng.range(1, 2), rng.range(1, 2), rng.range(1, 2))];
+            lines.push("cserver 0 -".into());
+            lines.push("cclient 0 -".into());
+            if rng.chance(30) { tag += 1; lines.push(format!("send 0 100 {tag}")); lines.push("recvreq 0 100".into()); lines.push("dactive 0 100".into()); lines.push("dpending 0 100".into()); }
+            for l in 0..k { lines.push(format!("qloan 0 {l}")); }
+            // send order: as loaned, or reversed, or shuffled a little
+            let mut order: Vec<u64> = (0..k).collect();
+            match rng.below(4) { 0 => order.reverse(), 1 => { let i = rng.below(k) as usize; let j = rng.below(k) as usize; order.swap(i, j); } _ => {} }
+            for (i, l) in order.iter().enumerate() {
+                tag += 1;
+                if rng.chance(8) { lines.push(format!("qdrop 0 {l}")); continue }
+                lines.push(format!("qsend 0 {l} {i} {tag}"));
+                if rng.chance(10) { lines.push("hasreq 0".into()); }
+                lines.push(format!("recvreq 0 {i}"));
+                if rng.chance(30) { tag += 1; lines.push(format!("respond 0 {i} {tag}")); lines.push(format!("recvresp 0 {i}")); lines.push("dresp 0 0".into()); }
+                if rng.chance(90) { lines.push(format!("dactive 0 {i}")); }
+                lines.push(format!("dpending 0 {i}"));
+            }
+            lines.push(format!("recvreq 0 {k}"));
+            for i in 0..rng.range(1, 3) {
+                tag += 1; let r = 200 + i;
+                lines.push(format!("send 0 {r} {tag}")); lines.push(format!("recvreq 0 {r}"));
+                tag += 1; lines.push(format!("respond 0 {r} {tag}")); lines.push(format!("recvresp 0 {r}"));
+                lines.push(format!("dactive 0 {r}")); lines.push(format!("dpending 0 {r}")); lines.push("dresp 0 0".into());
+            }
         }
         cases.push(lines);
     }
@@ -582,7 +918,7 @@ fn exhaustive(a: &Args, variant: &str) -> Vec<Vec<String>> {
     let configs = ["2 1 1 1 1 0 0 0 1 1 1", "2 1 1 1 1 1 1 1 1 1 1", "1 2 2 1 1 0 1 1 1 1 1", "2 2 1 2 2 1 0 0 1 1 1"];
     let alphabet: Vec<String> = [
         "cclient", "cserver", "dclient", "dserver", "send 0", "send new", "recvreq 0", "recvreq new", "respond old", "respond new", "dactive", "recvresp old", "recvresp new",
-        "dpending", "dresp",
+        "dpending", "dresp", "rloan", "rsend", "qloan", "qsend",
     ].iter().map(|x| x.to_string()).collect();
     for cfg in configs {
         enumerate_seqs(&alphabet, a.exhaustive as usize, &mut |seq| {
@@ -592,6 +928,7 @@ fn exhaustive(a: &Args, variant: &str) -> Vec<Vec<String>> {
             let (mut dc, mut ds) = (0usize, 0usize);
             let mut pend: Vec<(usize, usize)> = vec![(0, 0)];
             let mut act: Vec<(usize, usize)> = vec![(0, 0)];
+            let (mut nl, mut rl, mut ql): (usize, Vec<usize>, Vec<usize>) = (0, vec![], vec![]);
             for &i in seq {
                 match alphabet[i].as_str() {
                     "cclient" => { lines.push(format!("cclient {nc} -")); nc += 1; }
@@ -616,6 +953,10 @@ fn exhaustive(a: &Args, variant: &str) -> Vec<Vec<String>> {
                     }
                     "dpending" => { if !pend.is_empty() { let (c, r) = pend.remove(0); lines.push(format!("dpending {c} {r}")); } }
                     "dresp" => lines.push("dresp 0 0".to_string()),
+                    "rloan" => { lines.push(format!("rloan 0 0 {nl}")); rl.push(nl); nl += 1; }
+                    "rsend" => { if !rl.is_empty() { let l = rl.remove(0); tag += 1; lines.push(format!("rsend 0 {l} {tag}")); } }
+                    "qloan" => { lines.push(format!("qloan 0 {nl}")); ql.push(nl); nl += 1; }
+                    "qsend" => { if !ql.is_empty() { let l = ql.remove(0); tag += 1; lines.push(format!("qsend 0 {l} {nr} {tag}")); pend.push((0, nr)); nr += 1; } }
                     _ => unreachable!(),
                 }
             }
